@@ -115,7 +115,7 @@ func runC17(r *Report) {
 	// table, in whatever function, is behind a cap test or replaces an entry that is already there
 	type capped struct {
 		typ, field, limit string
-		named           string
+		named             string
 	}
 	var cappedTabs []capped
 	for _, s := range sites {
